@@ -39,6 +39,35 @@ impl Borrow<Element> for Element { open spec fn borrow_spec(&self) -> Element { 
 impl Clone for EdwardsProjective { #[verifier::external_body] fn clone(&self) -> (r: EdwardsProjective) ensures r == *self { unimplemented!() } }
 impl Copy for EdwardsProjective {}
 @GROUP_OPS@
+// native affine point (ark_ec Affine<Decaf377EdwardsConfig>, A-ARK-2): `Affine::new` asserts that the coordinates satisfy the
+// curve equation (the crate's config answers the subgroup question with a constant true) and panics otherwise -- a defect in
+// the completeness reading, no circuit in the soundness reading
+#[verifier::external_body]
+pub struct EdwardsAffine { _p: u8 }
+pub uninterp spec fn arepr_(a: EdwardsAffine) -> P4;
+pub uninterp spec fn of_p4_(p: P4) -> EdwardsProjective;
+pub broadcast axiom fn repr_of_p4_(p: P4) ensures repr(#[trigger] of_p4_(p)) == p;
+pub open spec fn aff4(x: int, y: int) -> P4 { P4 { x: x, y: y, z: 1, t: fmul(x, y) } }
+impl EdwardsAffine {
+    #[verifier::external_body]
+    pub fn new(x: Fq, y: Fq) -> (r: EdwardsAffine)
+//#if COMPL
+        requires on_curve(aff4(x.val(), y.val()))
+//#endif
+        ensures arepr_(r) == aff4(x.val(), y.val())
+    { unimplemented!() }
+}
+impl FromSpecImpl<EdwardsAffine> for EdwardsProjective {
+    open spec fn obeys_from_spec() -> bool { true }
+    open spec fn from_spec(p: EdwardsAffine) -> EdwardsProjective { of_p4_(arepr_(p)) }
+}
+impl From<EdwardsAffine> for EdwardsProjective { #[verifier::external_body] fn from(p: EdwardsAffine) -> EdwardsProjective { unimplemented!() } }
+// R1CSVar::cs of the point gadget (FqVar::value is in preludes/r1cs.rs)
+pub uninterp spec fn ev_cs(v: Decaf377EdwardsVar) -> ConstraintSystemRef<Fq>;
+impl Decaf377EdwardsVar {
+    #[verifier::external_body]
+    pub fn cs(&self) -> (r: ConstraintSystemRef<Fq>) ensures r == ev_cs(*self) { unimplemented!() }
+}
 impl Decaf377EdwardsVar {
     // AffineVar::new_variable_omit_prime_order_check: allocates x, y in the given mode and (unless Constant) enforces the
     // curve equation a x^2 + y^2 = 1 + d x^2 y^2 on them; no subgroup / coset check (that is the caller's business)
